@@ -4,7 +4,7 @@ from hypothesis import assume, strategies as st
 from vlib.gen_listing import OPERANDS, instruction_body
 from vlib.gen_pattern import describe_inst, describe_operand, lit_ok
 from vlib.matcheval import compare, stream_sample
-from vlib.refmatch import FAMILIES
+from vlib.refmatch import FAMILIES, regcap_parts
 from vlib.runner import Eval
 
 ID = "C05"
@@ -372,12 +372,27 @@ def deref_capture_cases(draw):
         # needs two captured fields of the same kind or any two captured fields
         capfields = list(shape)[:] if len(shape) >= 2 else capfields
     names = {f: f"&d{n}" for n, f in enumerate(capfields)}
+    # a register field may hold a register-family capture instead (a designed use: the family regexes end in a look-ahead for
+    # , + * ]): every occurrence then names the same architectural register at the width of its suffix
+    regcap = {}
+    for f in ("main_reg", "register_multiplier"):
+        if f in names and draw(st.integers(0, 1)) == 0:
+            hit = [(fam, reg, w) for fam, table in FAMILIES.items() for reg, ws in table.items() for w, nm in ws.items() if "%" + nm == comps0[f]]
+            if hit:
+                fam, reg, w = hit[0]
+                key = f"{fam}-{len(regcap) + 1}"
+                regcap[f] = {"fam": fam, "key": key, "width": w}
+                names[f] = key
     items, window, comps_list = [], [], []
     for k in range(nitems):
         comps = dict(comps0)
         fields = {}
         for f in shape:
-            if f in names and (k == 0 or draw(st.integers(0, 3)) > 0):
+            if f in regcap and (k == 0 or draw(st.integers(0, 3)) > 0):
+                rc_ = regcap[f]
+                sfx = "." + rc_["width"] if draw(st.integers(0, 2)) > 0 else ""
+                fields[f] = ["reg", rc_["key"] + sfx]
+            elif f in names and f not in regcap and (k == 0 or draw(st.integers(0, 3)) > 0):
                 fields[f] = ["cap", names[f]]
             else:
                 v = comps[f]
@@ -385,9 +400,9 @@ def deref_capture_cases(draw):
                 if f == "constant_offset" and v.startswith("-"):
                     spelled = v
                 fields[f] = ["lit", spelled]
-        if k > 0 and not any(v[0] == "cap" for v in fields.values()):
+        if k > 0 and not any(v[0] in ("cap", "reg") for v in fields.values()):
             f = draw(st.sampled_from(sorted(names)))
-            fields[f] = ["cap", names[f]]
+            fields[f] = ["reg", regcap[f]["key"]] if f in regcap else ["cap", names[f]]
         order = list(draw(st.permutations(list(shape))))
         mn = draw(st.sampled_from(DC_MN))
         other = draw(st.sampled_from(["%rax", "%rcx", "%r10", "$0x1", "%edx"]))
@@ -401,7 +416,7 @@ def deref_capture_cases(draw):
         it = items[k]
         c = comps_list[k]
         if mut == "cap-component":
-            fs = [f for f, v in it["fields"].items() if v[0] == "cap"]
+            fs = [f for f, v in it["fields"].items() if v[0] in ("cap", "reg")]
             f = draw(st.sampled_from(fs))
             c[f] = _dc_value(draw, f, avoid=c[f])
             applied = mut
@@ -422,6 +437,19 @@ def deref_capture_cases(draw):
             else:
                 c["constant_offset"] = draw(st.sampled_from(DC_OFFS))
             applied = mut
+    tail = None
+    if regcap and draw(st.booleans()):
+        f = sorted(regcap)[0]
+        rc_ = regcap[f]
+        table = FAMILIES[rc_["fam"]]
+        reg = [r for r, ws in table.items() if "%" + ws.get(rc_["width"], "") == comps0[f]][0]
+        w2 = draw(st.sampled_from(sorted(table[reg])))
+        shown = "%" + table[reg][w2]
+        if mut == "cap-component" and draw(st.booleans()):
+            other = draw(st.sampled_from([r for r in sorted(table) if r != reg and w2 in table[r]] or [reg]))
+            shown = "%" + table[other][w2]
+            applied = "tail-other-register"
+        tail = {"mn": draw(st.sampled_from(DC_MN)), "name": rc_["key"] + "." + (w2.upper() if w2 in ("8h", "8l") and draw(st.booleans()) else w2), "fam": rc_["fam"], "shown": shown}
     pattern = []
     for it in items:
         d = {"$deref": {f: it["fields"][f][1] for f in it["order"]}}
@@ -448,9 +476,12 @@ def deref_capture_cases(draw):
             put(it["mn"], [att, o_att], [norm, o_norm], {"pos": 0, "comps": c})
         else:
             put(it["mn"], [o_att, att], [o_norm, norm], {"pos": 1, "comps": c})
+    if tail is not None:
+        pattern.append({tail["mn"]: [tail["name"]]})
+        put(tail["mn"], [tail["shown"], "%r11"], [tail["shown"], "%r11"], {"plain": True})
     for _ in range(draw(st.integers(0, 2))):
         put("ret", [], [], None)
-    return {"form": "deref-capture", "mut": applied if mut != "none" else "none", "asked": mut, "items": items, "pattern": pattern, "listing": L, "comps": comps_idx,
+    return {"form": "deref-capture", "tail": tail, "mut": applied if mut != "none" else "none", "asked": mut, "items": items, "pattern": pattern, "listing": L, "comps": comps_idx,
             "key_order_canonical": all(it["order"] == [f for f in ("main_reg", "register_multiplier", "constant_multiplier", "constant_offset") if f in it["order"]] for it in items)}
 
 
@@ -464,7 +495,7 @@ def _dc_spans(case):
         ok = True
         for k, it in enumerate(items):
             rec, meta = L[i + k], comps[i + k]
-            if meta is None or it["mn"] not in rec[1] or meta["pos"] != it["pos"] or set(meta["comps"]) != set(it["fields"]):
+            if meta is None or "comps" not in meta or it["mn"] not in rec[1] or meta["pos"] != it["pos"] or set(meta["comps"]) != set(it["fields"]):
                 ok = False
                 break
             pat_ops = case["pattern"][k][it["mn"]]
@@ -473,7 +504,16 @@ def _dc_spans(case):
                     ok = False
             for f, (kind, v) in it["fields"].items():
                 have = _dc_strip(meta["comps"][f])
-                if kind == "lit":
+                if kind == "reg":
+                    fam_table, key, width = regcap_parts(v)
+                    regs = [r for r, ws in fam_table.items() for w, nm in ws.items() if nm == have and (width is None or w == width)]
+                    if not regs:
+                        ok = False
+                    elif key in env:
+                        ok = ok and env[key] == ("R", regs[0])
+                    else:
+                        env[key] = ("R", regs[0])
+                elif kind == "lit":
                     ok = ok and _dc_strip(v) == have
                 elif v in env:
                     ok = ok and env[v] == have
@@ -481,8 +521,21 @@ def _dc_spans(case):
                     env[v] = have
             if not ok:
                 break
+        tail = case.get("tail")
+        n_ = len(items)
+        if ok and tail is not None:
+            # the trailing plain operand: the same register at the width of its own suffix
+            if i + n_ >= len(L):
+                ok = False
+            else:
+                rec = L[i + n_]
+                fam_table, key, width = regcap_parts(tail["name"])
+                op = rec[3][0][1:] if rec[3] and rec[3][0].startswith("%") else None
+                regs = [r for r, ws in fam_table.items() for w, nm in ws.items() if nm == op and (width is None or w == width)]
+                ok = tail["mn"] in rec[1] and bool(regs) and env.get(key) == ("R", regs[0])
+            n_ += 1
         if ok:
-            spans[i] = {i + len(items)}
+            spans[i] = {i + n_}
     return spans
 
 
